@@ -9,6 +9,7 @@ import Dashu.Proofs.Text.FloatSciParse
 import Dashu.Proofs.Text.DisplayLink
 import Dashu.Proofs.Text.FloatTie
 import Dashu.Proofs.Text.DisplayText
+import Dashu.Proofs.Text.FloatIsize
 /-
   C08 — Float text I/O is lossless; base/precision changes are faithfully rounded.   **partial**
 
@@ -579,6 +580,34 @@ theorem display_text_is_spec_normalised (B : Nat) (hB : 2 ≤ B) (m : Mode) (plu
   display_text_eq_spec_new B hB m plus prec s e
 
 
+/-- **the scale of a literal is `[+|-] d+` inside the isize range** (round 7).  `parseIsize` — the model of
+    `str::parse::<isize>()`, shared by the parser model and by the grammar `parseFloatSpec` — is characterised
+    completely by the documented grammar `IsizeText` (an existential statement that does not mention the
+    control flow): it answers `z` exactly when the text is an optional sign followed by at least one ASCII
+    decimal digit, `z` is the signed number the digits spell (leading zeros and `+` allowed) and
+    `−2^(bits−1) ≤ z < 2^(bits−1)`; every other text is an error, `NoDigits` for the empty text and
+    `InvalidDigit` otherwise (in particular for a lone sign, any other byte, and a value one beyond either limit). -/
+theorem parse_isize_spec (bits : Nat) (s : List Nat) :
+    (∀ z, parseIsize bits s = .ok z ↔ IsizeText bits s z) ∧
+    (∀ e, parseIsize bits s = .error e → e = if s = [] then .noDigits else .invalidDigit) ∧
+    (∀ z z', IsizeText bits s z → IsizeText bits s z' → z = z') :=
+  ⟨parseIsize_ok_iff bits s, parseIsize_error bits s, fun z z' => IsizeText_unique bits s z z'⟩
+
+/-- **the scale split of `Repr::from_str_native`** (text behind the LAST scale marker, `parse::<isize>()`), over the
+    grammar of the scale: without a marker the scale is 0 and the body is the whole text; with a marker at `pos`
+    the split succeeds exactly when the text behind it is an `IsizeText` of 64 bits — the scale is its value, the
+    body the text before the marker — and fails exactly when it is not, with `NoDigits` when nothing follows the
+    marker and `InvalidDigit` otherwise. -/
+theorem scale_split_spec (B : Nat) (hp : Bool) (src : List Nat) :
+    (∀ v pm body, splitScale B hp src = .ok (v, pm, body) ↔
+      (rfindIdx (isScaleMarker B hp) src = none ∧ v = 0 ∧ pm = false ∧ body = src) ∨
+      ∃ pos, rfindIdx (isScaleMarker B hp) src = some pos ∧ IsizeText 64 (src.drop (pos + 1)) v ∧
+        pm = (B == 2 && (src.getD pos 0 == 112 || src.getD pos 0 == 80)) ∧ body = src.take pos) ∧
+    (∀ e, splitScale B hp src = .error e ↔
+      ∃ pos, rfindIdx (isScaleMarker B hp) src = some pos ∧ (∀ v, ¬ IsizeText 64 (src.drop (pos + 1)) v) ∧
+        e = if src.drop (pos + 1) = [] then .noDigits else .invalidDigit) :=
+  ⟨splitScale_ok_iff B hp src, splitScale_error_iff B hp src⟩
+
 -- non-vacuity
 example : ilogExact 16 2 = 4 ∧ ilogExact 8 2 = 3 ∧ ilogExact 10 2 = 0 ∧ ilogExact 36 6 = 2 := by decide
 example : (2 : Nat) ≤ 10 ∧ (1 : Nat) ≤ 53 := by decide
@@ -656,5 +685,14 @@ example : (112 : Nat) ∈ Dashu.Gen.float_scaleMarkers 2 true ∧ (2, "LowerHex"
 example := mode_spec_unique .halfAway 5 2 _ _ (by decide) (round_int_meets_mode_spec .halfAway 5 2 (by decide))
   (round_int_meets_mode_spec .halfAway 5 2 (by decide))
 example := display_spec_rounds_like_model 10 (by decide) .halfEven true 2 ⟨-12345, -3⟩
+
+-- round 7: "-012" is an IsizeText of -12; the limits of 64 bits: isize::MIN accepted, isize::MAX + 1 and a lone sign rejected
+example : IsizeText 64 [45, 48, 49, 50] (-12) := ⟨[45], [0, 1, 2], by simp, by simp, by decide, rfl, by decide, by decide, by decide⟩
+example : parseIsize 64 [45, 48, 49, 50] = .ok (-12) := ((parse_isize_spec 64 _).1 _).mpr ⟨[45], [0, 1, 2], by simp, by simp, by decide, rfl, by decide, by decide, by decide⟩
+example : parseIsize 64 [45,57,50,50,51,51,55,50,48,51,54,56,53,52,55,55,53,56,48,56] = .ok (-9223372036854775808) ∧
+    parseIsize 64 [57,50,50,51,51,55,50,48,51,54,56,53,52,55,55,53,56,48,56] = .error .invalidDigit ∧
+    parseIsize 64 [43] = .error .invalidDigit ∧ parseIsize 64 [] = .error .noDigits := by decide +kernel
+example : splitScale 10 false [49, 101, 43, 55] = .ok (7, false, [49]) ∧ splitScale 10 false [49, 101] = .error .noDigits ∧
+    splitScale 10 false [49, 101, 120] = .error .invalidDigit := by decide +kernel
 
 end Dashu.Props.C08
